@@ -16,7 +16,7 @@ RULE = ("programs = `const K: &[T] = &iter::collect_const!(T => source, adapters
         "&str, u8}; sources: array reference, a..b, a..=b, a.. + take, string::chars, string::split(char), slice::iter_copied, "
         "slice::windows/chunks (mapped to their length and first element); adapters: map, filter, filter_map, take, skip, take_while, "
         "skip_while, enumerate, zip (range / slice argument; equal lengths when a rev() follows), flat_map, flatten, rev, copied; "
-        "oracle: K == the same chain on std iterators collected into a Vec (length and every element); chains whose meaning "
+        "oracle: K == the same chain on std iterators collected into a Vec (length and every element); a quarter of the i32 chains reference a caller constant named like an item of konst's own macro bodies (LEN, STR, ... from /repo's sources); chains whose meaning "
         "konst documents differently (position-dependent adapter before rev) are not generated here (they are C10's known "
         "finding); a batch that fails to compile is bisected to the failing item: const-evaluation errors (E0080: unwritten "
         "element, overflow, failed assert) are violations; non-trivial = chain with >= 2 adapters or a non-i32 item type and "
@@ -102,18 +102,35 @@ def gen_typed(rng):
     raise ValueError(fam)
 
 
+_NAMES = None
+
+
 def gen_item(rng):
+    """(item type, konst expression, std expression, declarations of caller constants used by both)"""
+    global _NAMES
     if rng.random() < 0.6:
         k, s = gen_chain.gen_const_chain(rng)
-        return "i32", k, s
+        decl = ""
+        if rng.random() < 0.25:
+            # a caller constant inside a closure of the chain, named like an item that konst's own macro bodies declare
+            # (macro hygiene does not cover items: the macro must keep its helpers out of the caller's way)
+            if _NAMES is None:
+                _NAMES = driver.macro_item_names()["const"] or ["LEN"]
+            name = rng.choice(_NAMES)
+            c = rng.randint(0, 9)
+            decl = "const %s: i32 = %d;" % (name, c)
+            assert k.endswith(")") and s.endswith(".collect::<Vec<i32>>()")
+            k = k[:-1] + ", map(|x| x + %s))" % name
+            s = s[:-len(".collect::<Vec<i32>>()")] + ".map(|x| x + %s).collect::<Vec<i32>>()" % name
+        return "i32", k, s, decl
     ty, k, s = gen_typed(rng)
-    return ty, "iter::collect_const!(%s => %s)" % (ty, k), "%s.collect::<Vec<%s>>()" % (s, ty)
+    return ty, "iter::collect_const!(%s => %s)" % (ty, k), "%s.collect::<Vec<%s>>()" % (s, ty), ""
 
 
 def render(items):
     lines = ["#![allow(unused, clippy::all)]", "use konst::iter;", "fn main() {", "    let mut multi = 0u32;"]
-    for i, (ty, k, s) in enumerate(items):
-        lines.append("    { const K: &[%s] = &%s; let s: Vec<%s> = %s; if K.len() >= 2 { multi += 1; } if K != &s[..] { println!(\"FAIL %d k={:?} s={:?}\", K, s); } }" % (ty, k, ty, s, i))
+    for i, (ty, k, s, decl) in enumerate(items):
+        lines.append("    { " + decl + " const K: &[%s] = &%s; let s: Vec<%s> = %s; if K.len() >= 2 { multi += 1; } if K != &s[..] { println!(\"FAIL %d k={:?} s={:?}\", K, s); } }" % (ty, k, ty, s, i))
     lines.append("    println!(\"TOTAL %d multi={}\", multi);" % len(items))
     lines.append("}")
     return "\n".join(lines) + "\n"
@@ -181,7 +198,9 @@ def run(prop, tier, seed, out, timeout, **kw):
                 violations.append((chunk[int(line.split()[1])], line[:400]))
             elif line.startswith("TOTAL "):
                 multi += int(line.split("multi=")[1])
-    for ty, k, s in items:
+    for ty, k, s, decl in items:
+        if decl:
+            labels["caller_const_named_like_macro_item"] = labels.get("caller_const_named_like_macro_item", 0) + 1
         labels["type_" + ty] = labels.get("type_" + ty, 0) + 1
         for a in ("zip(", "rev()", "flat_map(", "flatten()", "enumerate()", "take(", "skip(", "take_while(", "skip_while(", "filter(", "filter_map("):
             if a in k:
@@ -192,7 +211,7 @@ def run(prop, tier, seed, out, timeout, **kw):
     text = []
     rc = 0
     for it, why in violations[:5]:
-        path = driver.save_replay(prop, ENGINE, "collect", {"property": prop, "engine": ENGINE, "case": {"type": it[0], "konst": it[1], "std": it[2]}, "evidence": [why]})
+        path = driver.save_replay(prop, ENGINE, "collect", {"property": prop, "engine": ENGINE, "case": {"type": it[0], "konst": it[1], "std": it[2], "decl": it[3]}, "evidence": [why]})
         text.append("  %s\n    %s" % (it[1], why))
         text.append("VIOLATION property=%s replay=%s" % (prop, path))
         rc = 1
@@ -208,7 +227,7 @@ def run(prop, tier, seed, out, timeout, **kw):
 def replay(prop, path, **kw):
     body = json.load(open(path))
     c = body["case"]
-    it = (c["type"], c["konst"], c["std"])
+    it = (c["type"], c["konst"], c["std"], c.get("decl", ""))
     outr, err = build_and_run("c11_collect_replay", [it], 600)
     if outr is None:
         if "E0080" in err:
